@@ -117,6 +117,22 @@ fn cases(args: &Args, rng: &mut Rng) -> Vec<C12Case> {
         v.push(mk(&format!("multi{i}"), a.clone(), b.clone(), &plan, f, (None, Some(0xFFFF_FFFB)), vec![], false));
         if i < 2 { v.push(mk(&format!("multi{i}-mt"), a, b, &plan, f, (None, None), vec![], true)); }
     }
+    // an impatient application: send() from the first moment on, before the association / the in-band channel is open
+    // (task ids ≥ 200 do not wait for Open); whatever send() accepted on a reliable channel has to arrive
+    for (i, f) in ["-", "B.INITACK.1.drop", "B.COOKIEACK.1.drop", "A.DATA.1.drop"].iter().enumerate() {
+        let a = vec![spec(2, Kind::RelOrd, false, 0), spec(1, Kind::RelOrd, true, 0)];
+        let b = vec![spec(1, Kind::RelOrd, true, 0)];
+        let plan = [(0usize, 2u16, 100usize, 200u8), (0, 2, 3000, 200), (0, 2, 7, 200), (0, 1, 50, 201), (0, 1, 60, 201), (1, 1, 9, 200)];
+        v.push(mk(&format!("send-before-open{i}"), a, b, &plan, f, (None, None), vec![], false));
+    }
+    // an ordered partially reliable channel whose very first message is abandoned still delivers the later ones
+    // (the later ones are sent once the link is quiet again: phase 1)
+    for (name, neg) in [("pr-ordered-first-message-abandoned", true), ("pr-ordered-first-message-abandoned-dcep", false)] {
+        let mut c = mk(name, vec![spec(2, Kind::RexOrd, neg, 0)], if neg { vec![spec(2, Kind::RexOrd, true, 0)] } else { vec![] },
+            &[(0, 2, 500, 0), (0, 2, 30, 0), (0, 2, 40, 0)], if neg { "A.TSN.0.dropn2" } else { "A.TSN.1.dropn2" }, (Some(7000), Some(100)), vec![], false);
+        c.case.msgs[1].phase = 1; c.case.msgs[2].phase = 1;
+        v.push(c);
+    }
     // partial reliability under loss (the code's known PR defects show up here)
     v.push(mk("pr-unordered-fragmented-loss", vec![spec(2, Kind::RexUnord, true, 0)], vec![spec(2, Kind::RexUnord, true, 0)],
         &[(0, 2, 20_000, 0), (0, 2, 30, 0), (0, 2, 40, 0)], "A.DATA.2.drop", (Some(5000), Some(1000)), vec![], false));
@@ -248,6 +264,13 @@ fn oracle(c: &Case, o: &Outcome) -> Vec<(String, String)> {
                     fails.push((if any_pr { "stall:reliable-channel-behind-abandoned-chunk".to_string() } else { "stall".to_string() },
                         format!("{who}: {} of {} delivered after {} ms", delivered.len(), submitted.len(), o.elapsed_ms)));
                 }
+            }
+            // any channel, partially reliable ones included: what is sent once the fault script is used up and the link
+            // has gone quiet (phase 1) meets no loss, so it has to arrive
+            let late: Vec<&Msg> = c.msgs.iter().filter(|m| m.side == side && m.chan == ch.id && m.phase == 1).collect();
+            if pr && !late.is_empty() && o.faults_used.iter().all(|u| *u) && !(0..2).any(|s| c.end.closes_side(s)) && !c.closes.iter().any(|(_, id)| *id == ch.id) {
+                let missing = late.iter().filter(|m| !delivered.iter().any(|d| d.as_ref() == m.data.as_slice())).count();
+                if missing > 0 { fails.push(("pr:message-sent-on-a-quiet-link-not-delivered".into(), format!("{who}: {missing} of {} messages sent after the losses never arrived", late.len()))); }
             }
             // Open exactly once, before the first message; Close at most once
             let opens = evs.iter().filter(|e| matches!(e, DataChannelEvent::Open)).count();
